@@ -97,7 +97,15 @@ func TestWriteWitnesses(t *testing.T) {
 				hit = true
 				fmt.Printf("%s: %s: %s\n", kf.ID, f.Clause, f.Detail)
 			} else {
-				t.Errorf("%s: witness also fails %s: %s", kf.ID, f.Clause, f.Detail)
+				other := false
+				for _, o := range findings {
+					if strings.HasPrefix(f.Clause, o.Clause) && o.Trigger(c, f) {
+						other = true
+					}
+				}
+				if !other {
+					t.Errorf("%s: witness also fails %s (unattributed): %s", kf.ID, f.Clause, f.Detail)
+				}
 			}
 		}
 		if !hit {
